@@ -567,6 +567,70 @@ fn clone_sequences(rep: &mut Report) {
             }
         }
     }
+    // UnknownAttributes and PasswordAlgorithms built from long shaped lists (ascending / descending runs of 0..=100 entries,
+    // a run followed by an out-of-order entry, duplicates inside), through both construction routes, then cloned, then
+    // extended on either copy by a smaller / inside / equal / larger value: never a panic, always the model's list (first
+    // occurrence kept, order preserved)
+    for n in [0usize, 1, 2, 3, 7, 8, 9, 15, 16, 17, 31, 32, 33, 63, 64, 65, 100] {
+        for shape in ["ascending", "descending", "ascending-then-low", "ascending-then-inside-duplicate", "ascending-then-high-then-low"] {
+            let mut base: Vec<u16> = (0..n as u16).map(|x| 0x10 + x * 0x10).collect();
+            match shape {
+                "descending" => base.reverse(),
+                "ascending-then-low" => base.push(0x08),
+                "ascending-then-inside-duplicate" => {
+                    if n >= 2 {
+                        base.push(base[n / 2]);
+                    }
+                }
+                "ascending-then-high-then-low" => {
+                    base.push(0x7000);
+                    base.push(0x09);
+                }
+                _ => {}
+            }
+            let top = base.iter().copied().max().unwrap_or(0);
+            for route in ["from-slice", "add"] {
+                for which in ["original", "clone"] {
+                    for extra in [0x01u16, 0x18, top, top.wrapping_add(1), 0xFFFF] {
+                        let inp = || json!({"type": "UnknownAttributes", "shape": shape, "entries": n, "route": route, "mutated": which, "added": extra});
+                        let base = base.clone();
+                        np("UnknownAttributes::add", "long-shaped-list", &inp, rep, move || {
+                            let mut model: Vec<u16> = vec![];
+                            for x in &base {
+                                if !model.contains(x) {
+                                    model.push(*x);
+                                }
+                            }
+                            let mut u = if route == "from-slice" {
+                                UnknownAttributes::from(base.as_slice())
+                            } else {
+                                let mut u = UnknownAttributes::default();
+                                for x in &base {
+                                    u.add(*x);
+                                }
+                                u
+                            };
+                            let mut c = u.clone();
+                            let mut model_c = model.clone();
+                            let (target, tm) = if which == "original" { (&mut u, &mut model) } else { (&mut c, &mut model_c) };
+                            target.add(extra);
+                            if !tm.contains(&extra) {
+                                tm.push(extra);
+                            }
+                            (u.attributes() == model.as_slice(), c.attributes() == model_c.as_slice(), u.iter().count() == model.len())
+                        })
+                        .map(|(a, b, cnt)| {
+                            if !(a && b && cnt) {
+                                rep.violate(format!("value-differs-from-list-model/UnknownAttributes/{}", shape), "", inp());
+                            } else {
+                                rep.nontrivial(&("ua-long", n, shape, route, which, extra));
+                            }
+                        });
+                    }
+                }
+            }
+        }
+    }
     // agent StunAttributes and stun-rs StunMessageBuilder
     let pool: Vec<StunAttribute> = vec![
         Software::new("s1").unwrap().into(),
@@ -727,7 +791,7 @@ pub fn run(ctx: &RunCtx) -> i32 {
         rep,
         Finish {
             level: "exploration",
-            rule: format!("{} strings (every string of length <=4 (thorough: <=5) over a {}-symbol alphabet incl. quotes, backslash, TAB, 2-/3-/4-byte and combining characters, plus every string of length <=3 (thorough <=4) over that alphabet widened by 13 normalisation-sensitive code points (NFC growing / shrinking, Hangul jamo, fullwidth, non-ASCII spaces, default-ignorables, DEL, NUL) containing at least one of them, those code points before / after / repeated at lengths around 127 / 254 / 508 / 763, plus lengths 507..510 and 762..764) through every string-taking constructor / conversion (UserName, Realm, Nonce, Nonce::new_nonce_cookie x 4 flag sets, Software, Padding, ErrorCode x 7 codes, UserHash, HMACKey short- and long-term x 3 positions x 4 algorithms) and the accessors of every value built; every nonce 'obMatJos2' + 4 alphabet symbols + {} suffixes through is_nonce_cookie / security_features; every u16 through MessageType/MessageMethod/AttributeType/AlgorithmId/ErrorCode/IcmpCode conversions, every u8 through MessageClass/AddressFamily/IcmpType; every attribute of the menu (and decoded Unknown / integrity / fingerprint forms) through all 39 is_/as_ accessors, the matching expect_, attribute_type, Debug, Clone; build(k<=3).clone.mutate-either(j<=2).read-both for PasswordAlgorithms (2 construction routes), UnknownAttributes and the agent's StunAttributes against a Vec model. Non-trivial = distinct input for which a value was actually constructed and exercised", n_str, ALPHABET.len(), suffixes.len()),
+            rule: format!("{} strings (every string of length <=4 (thorough: <=5) over a {}-symbol alphabet incl. quotes, backslash, TAB, 2-/3-/4-byte and combining characters, plus every string of length <=3 (thorough <=4) over that alphabet widened by 13 normalisation-sensitive code points (NFC growing / shrinking, Hangul jamo, fullwidth, non-ASCII spaces, default-ignorables, DEL, NUL) containing at least one of them, those code points before / after / repeated at lengths around 127 / 254 / 508 / 763, plus lengths 507..510 and 762..764) through every string-taking constructor / conversion (UserName, Realm, Nonce, Nonce::new_nonce_cookie x 4 flag sets, Software, Padding, ErrorCode x 7 codes, UserHash, HMACKey short- and long-term x 3 positions x 4 algorithms) and the accessors of every value built; every nonce 'obMatJos2' + 4 alphabet symbols + {} suffixes through is_nonce_cookie / security_features; every u16 through MessageType/MessageMethod/AttributeType/AlgorithmId/ErrorCode/IcmpCode conversions, every u8 through MessageClass/AddressFamily/IcmpType; every attribute of the menu (and decoded Unknown / integrity / fingerprint forms) through all 39 is_/as_ accessors, the matching expect_, attribute_type, Debug, Clone; build(k<=3).clone.mutate-either(j<=2).read-both for PasswordAlgorithms (2 construction routes), UnknownAttributes and the agent's StunAttributes against a Vec model; UnknownAttributes built from long shaped lists (ascending / descending runs of 0..=100 entries, a run followed by out-of-order or duplicate entries) by both routes, cloned, then extended on either copy by a smaller / inside / equal / larger value, against the list model. Non-trivial = distinct input for which a value was actually constructed and exercised", n_str, ALPHABET.len(), suffixes.len()),
             assumptions: vec!["the documented expect_* panic on a type mismatch is not exercised".into()],
             required_symbols: vec!["string-constructors", "cookie-nonces", "scalar-sweeps", "attribute-accessors", "clone-sequences", "cookie-flags-roundtrip", "extra-api"],
             min_outcomes: 2,
